@@ -224,8 +224,10 @@ class Run:
         base = {"sid": "", "cmp": "", "C": 4, "L": 3, "scr": False, "utf8": True}
         evs = []
         for i, ch in enumerate(vec["chunks"]):
-            if vec.get("sw") and i == vec["sw"] - 1:
+            if vec.get("sw") and i == 1:
                 evs.append({"op": "utf8", "p": [0], "s": [], "pr": False, "port": "api"})
+            if vec.get("sw") == 3 and i == 2:
+                evs.append({"op": "utf8", "p": [1], "s": [], "pr": False, "port": "api"})
             evs.append({"op": "feedb", "p": [], "s": [], "pr": False, "port": "bytes", "b": ch})
         self.put(dict(base, id="%s-v%d" % (job["model"], idx), evs=evs), "vector-" + job["model"])
 
